@@ -2,7 +2,7 @@
 //! relate two projections (recording orders, repetition, monotonicity).
 
 use crate::case::{Case, GRID, Spec, Stance};
-use crate::model::{self, Policy, Projection, UNSTATED_TENTHS};
+use crate::model::{self, Policy, Projection};
 use crate::world::{Obs, Recorded};
 use anda_kip::Json;
 use std::collections::{BTreeMap, BTreeSet};
@@ -319,7 +319,9 @@ pub fn check_projection(
             let rows = model::ledger(case, upto);
             m.other_value_ignored
                 .iter()
-                .filter(|i| !model::eligible(&rows[**i].0, rows[**i].1, at, policy) && !x_set.contains(*i))
+                .filter(|i| {
+                    !model::eligible(&rows[**i].0, rows[**i].1, at, policy) && !x_set.contains(*i)
+                })
                 .count() as u64
         },
     };
@@ -386,7 +388,7 @@ pub fn side_of(functional: bool, a: &Spec) -> SideOf {
 }
 
 fn conf(a: &Spec) -> u8 {
-    if a.conf == 0 { UNSTATED_TENTHS } else { a.conf }
+    model::conf_tenths(a)
 }
 
 /// (e): `after` = `before` plus assertion `a` (all assertions eligible: mode
@@ -456,7 +458,7 @@ pub fn repetition_law(
             out.push(finding(
                 "repetition|score-changed",
                 format!(
-                    "adding {} (not more confident than its group, strongest 0.{strongest}) changed the score {b_score} -> {a_score}",
+                    "adding {} (not more confident than its group, strongest {strongest}/10) changed the score {b_score} -> {a_score}",
                     a.short()
                 ),
             ));
